@@ -328,6 +328,13 @@ def reset_rules(R, ctx):
     R.check('R08.4', f"{b.path}|reset-after-swap", ok, "reset_size_and_date follows the writer swap on every path, before any later fallible step",
             "after the writer swap the size/date state is not reset on every path (the new file would inherit the old size and rotate at once, or never)",
             where=b.loc(swaps[0]))
+    # the counters are reset only where a NEW file was mounted: re-opening the same path (reopen_output) appends to whatever is
+    # there, so a reset there would let the file grow to twice the limit
+    callers = sorted({root_fn(a) for (a, bb_, k_) in cg.callers.get(RESET, [])})
+    strays = [c for c in callers if not only_called_from(cg, c, {b.path})]
+    R.check('R08.4', 'reset-only-at-rotation', not strays, "reset_size_and_date is called only by the rotation function (or its private helpers)",
+            f"reset_size_and_date is also called from {strays}: the size of a file that is continued (re-opened, appended to) is forgotten and the file can exceed the limit",
+            where=f.bodies[strays[0]].loc() if strays else b.loc())
     # reset stores 0 into current_size for both size-bearing variants
     rb = ctx.body(r'^writers::file_log_writer::state::RollState::reset_size_and_date$')
     zero = {}
